@@ -213,6 +213,12 @@ pub fn gen_deletion(rng: &mut Rng, p: &Pools, eng: &Eng, who: Id32, style: DelSt
             }
         }
     }
+    // real requests often carry a relay hint (or more) after the target
+    for t in tags.iter_mut() {
+        if t.len() == 2 && rng.chance(1, 4) {
+            t.push("wss://relay.example".into());
+        }
+    }
     if style == DelStyle::OwnThenForeign {
         let t = if !foreign_events.is_empty() {
             let fe = rng.pick(&foreign_events);
@@ -245,6 +251,10 @@ pub fn gen_deletion(rng: &mut Rng, p: &Pools, eng: &Eng, who: Id32, style: DelSt
             } else {
                 vec!["e".to_string(), hex(&rng.arr32())]
             };
+            let mut t = t;
+            if rng.chance(1, 3) {
+                t.push("wss://relay.example".into());
+            }
             let at = rng.usize_below(tags.len() + 1);
             tags.insert(at, t);
         }
